@@ -22,6 +22,13 @@ theorem C11_every_interleaving_from_any_invariant_state (n : Nat) (inmem : Bool)
       g'.final = some (pre d0 ws n) :=
   pipeline_deterministic n inmem d0 ws
 
+/-- **No deadlock**: from the start, after any interleaving of all producers' and the consumer's steps, either every
+    chromosome has been written or some step is enabled. -/
+theorem C11_pipeline_never_stuck (n : Nat) (inmem : Bool) (d0 : Bytes) (ws : Nat → List Bytes) (sched : List GAct) (g' : G)
+    (hr : grun n (ginit n inmem d0 ws) sched = some g') :
+    g'.cur = n ∨ ∃ a g'', gstep n g' a = some g'' :=
+  pipeline_never_stuck n inmem d0 ws sched g' hr
+
 end PL
 
 namespace TB
